@@ -676,10 +676,15 @@ def _family_queries():
     that need care in a literal, in every statement kind"""
     out = []
     preds = {'exists': 'exists (select 1 from u where u.a = t.a)', 'in-sub': 'a in (select a from u)', 'in-list': 'a in (1, 8)', 'between': 'b between 2 and 3', 'like': "c like 'x%'",
-             'is-null': 'b is null', 'eq': 'a = 2', 'lt': 'b < 3', 'is-true': '(a = 2) is true'}
+             'is-null': 'b is null', 'eq': 'a = 2', 'lt': 'b < 3', 'is-true': '(a = 2) is true', 'is-col': 'a is b', 'is-not-null': 'b is not null'}
     neg = {'exists': 'not exists (select 1 from u where u.a = t.a)', 'in-sub': 'a not in (select a from u where a is not null)', 'in-list': 'a not in (1, 8)', 'between': 'b not between 2 and 3',
-           'like': "c not like 'x%'", 'is-null': 'b is not null', 'eq': 'not a = 2', 'lt': 'not b < 3', 'is-true': '(a = 2) is not true'}
+           'like': "c not like 'x%'", 'is-null': 'b is not null', 'eq': 'not a = 2', 'lt': 'not b < 3', 'is-true': '(a = 2) is not true', 'is-col': 'a is not b', 'is-not-null': 'b is null'}
     for k in preds:
+        # the generic negation: NOT ( p ) and NOT p for every predicate form (a renderer that builds NOT from the negation its library knows may lose it)
+        out.append((f'pred.NOT-paren-{k}', f'select id from t where not ({preds[k]})'))
+        out.append((f'pred.NOT-paren-not-{k}', f'select id from t where not ({neg[k]})'))
+        out.append((f'pred.NOT-NOT-{k}', f'select id from t where not (not ({preds[k]}))'))
+        out.append((f'pred.NOT-in-target-{k}', f'select id, not ({preds[k]}) from t'))
         out.append((f'pred.{k}', f'select id from t where {preds[k]}'))
         out.append((f'pred.not-{k}', f'select id from t where {neg[k]}'))
         out.append((f'pred.{k}.and', f'select id from t where id > 1 and {preds[k]}'))
